@@ -1485,4 +1485,55 @@ theorem fba_reduced_cost (n : Net) (y : String → Rat) (i : Nat) (hi : i ∈ n.
     | cons a l ih => simp only [List.map_cons, List.sum_cons, ih]; ring
   rw [this]; ring
 
+/-! ### deletions -/
+
+theorem close_length (n : Net) (ks : List Nat) : (n.close ks).rxns.length = n.rxns.length := by simp [Net.close]
+theorem close_idx (n : Net) (ks : List Nat) : (n.close ks).idx = n.idx := by simp [Net.idx, close_length]
+
+theorem close_rx (n : Net) (ks : List Nat) (i : Nat) (h : i ∈ n.idx) :
+    (n.close ks).rx i = if ks.contains i then { id := (n.rx i).id, rev := (n.rx i).rev, lb := .fin 0, ub := .fin 0, st := (n.rx i).st } else n.rx i := by
+  rw [idx_mem] at h
+  rw [rx_eq _ _ (by rw [close_length]; exact h), rx_eq _ _ h]
+  simp [Net.close]
+
+theorem close_st (n : Net) (ks : List Nat) (i : Nat) (h : i ∈ n.idx) : ((n.close ks).rx i).st = (n.rx i).st := by
+  rw [close_rx n ks i h]; split <;> rfl
+
+/-- **what closing reactions means**: the flux vectors of the content with the reactions `ks` closed are the steady-state vectors that
+are zero on `ks` and inside the bounds everywhere else -/
+theorem close_feasible_iff (n : Net) (ks : List Nat) (v : Nat → Rat) :
+    (n.close ks).Feasible v ↔
+      (∀ i ∈ n.idx, if ks.contains i then v i = 0 else inBox ((n.rx i).lb, (n.rx i).ub) (v i)) ∧
+      (∀ m ∈ n.mets, (n.idx.map (fun i => coefOf (n.rx i).st m * v i)).sum = 0) := by
+  unfold Net.Feasible
+  rw [close_idx]
+  have hm : (n.close ks).mets = n.mets := rfl
+  rw [hm]
+  have h1 : (∀ i ∈ n.idx, inBox (((n.close ks).rx i).lb, ((n.close ks).rx i).ub) (v i)) ↔
+      (∀ i ∈ n.idx, if ks.contains i then v i = 0 else inBox ((n.rx i).lb, (n.rx i).ub) (v i)) := by
+    constructor <;> intro h i hi <;> have := h i hi <;> rw [close_rx n ks i hi] at * <;> split at * <;> simp_all [inBox_zero]
+  have h2 : ∀ m, (n.idx.map (fun i => coefOf ((n.close ks).rx i).st m * v i)).sum = (n.idx.map (fun i => coefOf (n.rx i).st m * v i)).sum := by
+    intro m
+    exact sum_map_congr _ _ _ (fun i hi => by rw [close_st n ks i hi])
+  simp only [h1, h2]
+
+theorem close_proper (n : Net) (hp : n.Proper) (ks : List Nat) : (n.close ks).Proper := by
+  intro i hi
+  rw [close_idx] at hi
+  rw [close_rx n ks i hi]
+  split
+  · exact ⟨by simp, by simp⟩
+  · exact hp i hi
+
+/-- **a deletion row is the optimum of the knocked-out model**: any optimum of the problem a deletion solves is, on net fluxes, an optimum of
+the objective over the steady-state flux vectors that are zero on the closed reactions and inside the bounds elsewhere -/
+theorem deletion_optimum (n : Net) (hp : n.Proper) (ks : List Nat) (x : V → Rat) (h : (n.reactionDeletion ks).IsOpt x) :
+    (n.close ks).Feasible (netOf x) ∧ (∀ i ∈ n.idx, ks.contains i = true → netOf x i = 0) ∧
+    ∀ v, (n.close ks).Feasible v → if n.dirMax then n.objVal v ≤ n.objVal (netOf x) else n.objVal (netOf x) ≤ n.objVal v := by
+  obtain ⟨h1, _, h3⟩ := fba_optimum (n.close ks) (close_proper n hp ks) x h
+  refine ⟨h1, fun i hi hk => ?_, h3⟩
+  have := ((close_feasible_iff n ks _).1 h1).1 i hi
+  rw [if_pos hk] at this
+  exact this
+
 end AuxM
